@@ -65,6 +65,12 @@ structure Cfg where
   armComplex : Bool
   armByteVector : Bool
   armBoxedFunction : Bool
+  /-- the list short cut (`ptr_eq || storage_ptr_eq ..`) also requires equal `next` pointers: sharing the
+      element storage and the index of the FIRST node says nothing about the rest of the list (K11j). -/
+  listShortcutChecksNext : Bool
+  /-- lists are keyed in `visited` by the pointer of their head node; `false`: by `identity_tuple()` =
+      (element storage of the first node, index), which different lists share (K11j). -/
+  listVisitedByHead : Bool
   /-- `0.0` and `-0.0` hash alike (K11c). -/
   hashZeroUnified : Bool
   /-- hash maps / hash sets hash independently of their iteration order (K11d). -/
@@ -77,13 +83,18 @@ structure Cfg where
 def Cfg.fixed : Cfg :=
   { pairKeyed := true, vecRevisitFalse := false, armRational := true, armBigRational := true,
     armComplex := true, armByteVector := true, armBoxedFunction := true,
+    listShortcutChecksNext := true, listVisitedByHead := true,
     hashZeroUnified := true, hashUnordered := true, hashVecUnified := true }
 
 /-- The code as it was when this check was written (before the fixes of K11a–K11e). -/
 def Cfg.legacy : Cfg :=
   { pairKeyed := false, vecRevisitFalse := true, armRational := false, armBigRational := false,
     armComplex := false, armByteVector := false, armBoxedFunction := false,
+    listShortcutChecksNext := false, listVisitedByHead := false,
     hashZeroUnified := false, hashUnordered := false, hashVecUnified := false }
+
+/-- The code after the fixes of K11a–K11i, before the one of K11j. -/
+def Cfg.k11j : Cfg := { Cfg.fixed with listShortcutChecksNext := false, listVisitedByHead := false }
 
 def Cfg.sound (c : Cfg) : Bool := c == Cfg.fixed
 
@@ -96,9 +107,19 @@ def leafEqWork (c : Cfg) : Leaf → Leaf → Bool
 
 /-! ## Value graphs -/
 
+/-- What the list short cuts look at (im-lists unrolled list): the pointer of the element storage of the
+    FIRST node, the index into it, and the pointer of the next node (0 = none). -/
+structure ListSig where
+  store : Nat
+  idx : Nat
+  next : Nat
+  deriving DecidableEq, Repr, Inhabited
+
 inductive Node
   | leaf (l : Leaf)
-  | list (xs : List Nat)                 -- ListV built by `list` (a fresh object); `[]` is the empty list
+  /-- ListV.  The node id stands for the pointer of the head cell (`as_ptr_usize`); `sig` is what
+      `storage_ptr_eq` / `next_ptr_as_usize` see (`none`: storage shared with no other list). -/
+  | list (xs : List Nat) (sig : Option ListSig)
   | pair (a b : Nat)                     -- Pair (improper)
   | vec (xs : List Nat)                  -- VectorV (immutable)
   | mvec (xs : List Nat)                 -- MutableVector
@@ -114,7 +135,7 @@ def Graph.node (g : Graph) (i : Nat) : Node := g.getD i (.leaf .void)
 
 def children : Node → List Nat
   | .leaf _ => []
-  | .list xs => xs
+  | .list xs _ => xs
   | .pair a b => [a, b]
   | .vec xs => xs
   | .mvec xs => xs
@@ -173,7 +194,7 @@ def setRel (m : MapMode) (r : Nat → Nat → Bool) (xs ys : List Nat) : Bool :=
 
 def relBody (rc : RelCfg) (r : Nat → Nat → Bool) : Node → Node → Bool
   | .leaf x, .leaf y => rc.leaf x y
-  | .list xs, .list ys => all2 r xs ys
+  | .list xs _, .list ys _ => all2 r xs ys
   | .pair a b, .pair c d => r a c && r b d
   | .vec xs, .vec ys => all2 r xs ys
   | .mvec xs, .mvec ys => all2 r xs ys
@@ -227,6 +248,21 @@ def visit (c : Cfg) (vis : List Key) (l r : Nat) : Bool × List Key :=
     else if (Key.one l :: vis).contains (.one r) then (false, .one l :: vis)
     else (true, .one r :: .one l :: vis)
 
+/-- `l.storage_ptr_eq(&r) [&& l.next_ptr_as_usize() == r.next_ptr_as_usize()]` -/
+def sigSame (c : Cfg) : Option ListSig → Option ListSig → Bool
+  | some s, some t =>
+      s.store == t.store && s.idx == t.idx && (!c.listShortcutChecksNext || s.next == t.next)
+  | _, _ => false
+
+/-- the identity under which a list is entered into `visited`: the head cell (= node id), or – legacy –
+    `identity_tuple()` = (storage, index), encoded as a number that is no node id -/
+def lkey (c : Cfg) (g : Graph) (i : Nat) : Nat :=
+  if c.listVisitedByHead then i
+  else
+    match g.node i with
+    | .list _ (some s) => g.length + 1 + ((s.store + s.idx) * (s.store + s.idx + 1) / 2 + s.idx)
+    | _ => i
+
 inductive Out
   | ret (b : Bool)                               -- `return b`
   | cont (pl pr : List Nat) (vis : List Key)      -- push `pl` left, `pr` right (in this order); `continue`
@@ -247,11 +283,11 @@ def lookupAll (keyEq : Nat → Nat → Bool) (fs : List (Nat × Nat)) : List (Na
     `keyEq k k'` is what `HashMap::get`/`HashSet::contains` do with a stored key: same hash and `==`. -/
 def arm (c : Cfg) (g : Graph) (keyEq : Nat → Nat → Bool) (l r : Nat) (vis : List Key) : Out :=
   match g.node l, g.node r with
-  | .list xs, .list ys =>
-      -- `l.ptr_eq(&r) || l.storage_ptr_eq(&r)`; all empty lists are one object
-      if l == r || (xs.isEmpty && ys.isEmpty) then .cont [] [] vis
+  | .list xs s, .list ys t =>
+      -- `l.ptr_eq(&r) || (l.storage_ptr_eq(&r) && next pointers equal)`; all empty lists are one object
+      if l == r || sigSame c s t || (xs.isEmpty && ys.isEmpty) then .cont [] [] vis
       else
-        match visit c vis l r with
+        match visit c vis (lkey c g l) (lkey c g r) with
         | (true, vis') => if xs.length != ys.length then .ret false else .cont xs ys vis'
         | (false, vis') => .cont [] [] vis'
   | .pair a b, .pair a' b' =>
@@ -351,6 +387,15 @@ def keysDistinctB (g : Graph) : Bool :=
         (List.range es.length).all fun i => (List.range es.length).all fun j =>
           i == j || !eqSpec g (es.getD i (0, 0)).1 (es.getD j (0, 0)).1
     | _ => true
+
+/-- What is assumed about the identities of lists (it holds for im-lists): two lists whose first nodes
+    have the same element storage, the same index AND the same next node have the same elements.  (The
+    other assumption is built into the representation: a node id = a head cell has ONE definition.) -/
+def listSigB (g : Graph) : Bool :=
+  g.all fun n => g.all fun m =>
+    match n, m with
+    | .list xs (some s), .list ys (some t) => !(s == t) || xs == ys
+    | _, _ => true
 
 /-- Class predicate of finding K11a (python: `shared_twice`): the list of container nodes met when
     both values are traversed as trees, with repetitions. -/
